@@ -172,3 +172,59 @@ static Reg r_schedxml("schedxml", [](std::istringstream& is) {
 });
 
 }
+
+namespace vf {
+static std::string xml_dump(const XmlElement *e, int depth = 0)
+{
+	J j;
+	j.k("tag").hexs(e->GetTag());
+	j.k("seq").num(e->GetSequence());
+	J at('[');
+	for (auto it(e->abegin()); it != e->aend(); ++it) { J p('['); p.hexs(it->first); p.hexs(it->second); at.raw(p.done()); }
+	j.k("attrs").raw(at.done());
+	if (e->GetVal()) j.k("val").hexs(*e->GetVal());
+	J kids('[');
+	if (depth < 200)
+		for (auto it(e->begin()); it != e->end(); ++it) kids.raw(xml_dump(*it, depth + 1));
+	j.k("kids").raw(kids.done());
+	j.k("cnt").num(e->GetChildCnt());
+	return j.done();
+}
+
+// xmlparse <flags: 1=noextensions> <hexdoc> [find: <hexpath> <hexattr|-> <hexval|->]...
+static Reg r_xmlparse("xmlparse", [](std::istringstream& is) {
+	int flags; std::string doc; is >> flags >> doc;
+	XmlElement::XmlFlags fl;
+	if (flags & 1) fl.set(XmlElement::noextensions);
+	XmlElement::set_flags(fl);
+	std::istringstream in(unhex(doc));
+	J j;
+	try
+	{
+		std::unique_ptr<XmlElement> root(XmlElement::Factory(in, nullptr));
+		if (!root) { j.k("null").boolean(true); return j.done(); }
+		j.k("tree").raw(xml_dump(root.get()));
+		j.k("errors").num(root->GetErrorCnt());
+		std::string path, an, av;
+		J finds('[');
+		while (is >> path >> an >> av)
+		{
+			const std::string p(unhex(path)), a(unhex(an)), v(unhex(av));
+			const bool filt(an != "-");
+			XmlElement::XmlSet set;
+			const int n(root->find(p, set, filt ? &a : nullptr, filt ? &v : nullptr));
+			const XmlElement *first(root->find(p, filt ? &a : nullptr, filt ? &v : nullptr));
+			J f;
+			J s('[');
+			for (const auto *e : set) s.num(e->GetSequence());
+			f.k("set").raw(s.done());
+			f.k("n").num(n);
+			f.k("first").num(first ? first->GetSequence() : -1);
+			finds.raw(f.done());
+		}
+		j.k("finds").raw(finds.done());
+	}
+	catch (...) { j.k("x").raw(describe_exception()); }
+	return j.done();
+});
+}
